@@ -27,6 +27,27 @@
 //   - `any` is the abstract value type V; `nil` of type any is `default`; `error` is Option GoErr
 //   - value mode: a type assertion to one of the configured stream types does not hold
 //   - pointer receivers are threaded as values (no aliasing between objects)
+//
+// Phase 2 (the channel manager; gotrans_mgr.go, trans_channels.go) adds to the subset:
+//   - an interface type with a closed set of implementations: checked from the source (the only types
+//     of the package declaring all of its methods with its signatures, pointer receivers, no struct
+//     embedding one, at least one unexported method) and translated as a Lean sum type over the
+//     translated structs, with one generated dispatch function per translated method; units can import
+//     other units (Gen/TransMgr.lean imports Gen/TransC02.lean and Gen/TransC01.lean)
+//   - maps whose values are objects with pointer semantics (map[string]<interface>): a local bound by
+//     `x, ok := m[k]`, the range value of `for k, x := range m`, or the expression m[k] is a *reference*
+//     to the entry; it may only be the receiver of a method call, which reads the entry (GoMap.get?),
+//     calls the dispatch function and writes the new object back (m.set k …).  Rejected unless k is a
+//     variable never assigned after its declaration and the function never assigns m, m[…] or takes
+//     an address.  A call through a missing entry is a nil dereference: `let some x := m.get? k | return
+//     MayPanic.panic`, and the result type of such a function is `MayPanic (…)` (found by a first
+//     pass; callers propagate the panic).  A range value is the current entry (one entry per key)
+//   - calls between translated methods: `r1, r2 := recv.m(args)`, `recv.m(args)`, `return recv.m(args)`;
+//     the callee's receiver result is written back to the caller's receiver
+//   - nested maps, map[string]struct{} (GoMap Unit), comma-ok lookups that re-use `ok` (Go's rule for
+//     := in the same scope), multi-value assignment into a map entry (`m[k], err = f(…)`)
+//   - parameters of unmodelled types (context.Context) are dropped and may only be passed on
+//   - externals keyed by "$recv.field.method" (independent of the receiver's name)
 package main
 
 import (
@@ -38,7 +59,7 @@ import (
 )
 
 type gty struct {
-	kind string // any bool string int error slice map named enum unit tuple unknown
+	kind string // any bool string int error slice map named iface enum unit tuple ignored unknown
 	elem *gty
 	name string
 	tup  []*gty
@@ -53,7 +74,7 @@ func (t *gty) String() string {
 		return "[]" + t.elem.String()
 	case "map":
 		return "map[string]" + t.elem.String()
-	case "named", "enum":
+	case "named", "enum", "iface":
 		return t.name
 	}
 	return t.kind
@@ -81,17 +102,32 @@ type transUnit struct {
 	id          string
 	structs     map[string][]fieldInfo // translated struct types
 	structOrder []string
-	enums       map[string]string    // Go const -> Lean term
-	enumTypes   map[string]string    // Go enum type -> Lean type
-	enumZero    map[string]string    // Go enum type -> Lean zero value
-	externs     map[string]externSig // exprString of the callee -> signature
-	absentTypes map[string]bool      // type assertions that do not hold in the modelled mode
-	ifaces      map[string][]string  // interface -> implementing translated structs
-	methods     map[string]*gty      // "T.m" -> result type of translated methods (for calls between them)
+	enums       map[string]string      // Go const -> Lean term
+	enumTypes   map[string]string      // Go enum type -> Lean type
+	enumZero    map[string]string      // Go enum type -> Lean zero value
+	externs     map[string]externSig   // exprString of the callee -> signature
+	absentTypes map[string]bool        // type assertions that do not hold in the modelled mode
+	ifaces      map[string][]string    // interface -> implementing translated structs
+	methods     map[string]*methodInfo // "T.m" -> translated methods (for calls between them)
+	ignored     map[string]bool        // parameter types that are not modelled (dropped), e.g. context.Context
+	extParams   string                 // the externals every definition of this unit takes
+	extArgs     string
+	opens       []string
 	assume      []string
 	errs        []string
 	defs        []string
 	imports     []string
+}
+
+// methodInfo describes a translated function for its callers.
+type methodInfo struct {
+	leanName string
+	hasRecv  bool
+	params   []*gty // without the dropped (unmodelled) ones
+	results  []*gty
+	mayPanic bool
+	fuel     bool
+	extArgs  string
 }
 
 type fieldInfo struct {
@@ -102,7 +138,8 @@ type fieldInfo struct {
 func newTransUnit(r *Repo, pkg, id string) *transUnit {
 	return &transUnit{r: r, pkg: r.Pkg(pkg), id: id, structs: map[string][]fieldInfo{}, enums: map[string]string{},
 		enumTypes: map[string]string{}, enumZero: map[string]string{}, externs: map[string]externSig{},
-		absentTypes: map[string]bool{}, ifaces: map[string][]string{}, methods: map[string]*gty{}}
+		absentTypes: map[string]bool{}, ifaces: map[string][]string{}, methods: map[string]*methodInfo{},
+		ignored: map[string]bool{}, extParams: "(ext : Ext V)", extArgs: "ext"}
 }
 
 func (u *transUnit) fail(pos token.Pos, format string, a ...any) {
@@ -145,7 +182,11 @@ func (u *transUnit) goType(e ast.Expr) *gty {
 			return &gty{kind: "named", name: v.Name}
 		}
 		if _, ok := u.ifaces[v.Name]; ok {
-			return &gty{kind: "named", name: v.Name}
+			return &gty{kind: "iface", name: v.Name}
+		}
+	case *ast.SelectorExpr:
+		if u.ignored[exprString(v)] {
+			return &gty{kind: "ignored", name: exprString(v)}
 		}
 	case *ast.InterfaceType:
 		if v.Methods == nil || len(v.Methods.List) == 0 {
@@ -195,7 +236,7 @@ func (u *transUnit) leanType(t *gty) string {
 		return "(GoMap " + u.leanType(t.elem) + ")"
 	case "enum":
 		return u.enumTypes[t.name]
-	case "named":
+	case "named", "iface":
 		return "(" + t.name + " V)"
 	case "tuple":
 		var p []string
@@ -337,6 +378,7 @@ type scope struct {
 type varInfo struct {
 	lean string
 	ty   *gty
+	ref  *refInfo // non-nil: the variable is a reference to a map entry (objects with pointer semantics)
 }
 
 type fnCtx struct {
@@ -353,6 +395,8 @@ type fnCtx struct {
 	ok       bool
 	leanName string
 	pre      []string // definitions emitted before this one (deferred bodies)
+	mayPanic bool     // a nil dereference is possible: the result type is MayPanic (…)
+	panicky  bool     // set during translation when a possible nil dereference was emitted
 }
 
 func (c *fnCtx) fail(pos token.Pos, format string, a ...any) {
@@ -412,6 +456,14 @@ func (c *fnCtx) expr(e ast.Expr, want *gty) (string, *gty) {
 			return lt, &gty{kind: "enum", name: u.enumOf(v.Name)}
 		}
 		if vi := c.lookup(v.Name); vi != nil {
+			if vi.ref != nil {
+				c.fail(v.Pos(), "the reference %s (an entry of %s) is used other than as the receiver of a method call", v.Name, exprString(vi.ref.mapExpr))
+				return "default", tyUnk
+			}
+			if vi.ty.kind == "ignored" {
+				c.fail(v.Pos(), "use of the unmodelled value %s (%s)", v.Name, vi.ty.name)
+				return "default", tyUnk
+			}
 			return vi.lean, vi.ty
 		}
 		c.fail(v.Pos(), "unknown identifier %s", v.Name)
@@ -424,7 +476,7 @@ func (c *fnCtx) expr(e ast.Expr, want *gty) (string, *gty) {
 			return v.Value, tyString
 		}
 	case *ast.SelectorExpr:
-		if sig, ok := u.externs[exprString(v)]; ok && len(sig.results) == 1 { // a configured constant-like external
+		if sig, ok := c.extern(v); ok && len(sig.results) == 1 { // a configured constant-like external
 			return sig.lean, sig.results[0]
 		}
 		xs, xt := c.expr(v.X, nil)
@@ -497,6 +549,10 @@ func (c *fnCtx) expr(e ast.Expr, want *gty) (string, *gty) {
 			}
 			return "(" + xs + ".getD " + is + " " + u.zero(xt.elem) + ")", xt.elem // in range wherever the Go code does not panic
 		case "map":
+			if isObject(xt.elem) {
+				c.fail(v.Pos(), "an entry of a map of objects (%s) can only be the receiver of a method call", exprString(v))
+				return "default", tyUnk
+			}
 			ks, kt := c.expr(v.Index, tyString)
 			if kt.kind != "string" {
 				c.fail(v.Pos(), "map key is not a string")
@@ -551,9 +607,12 @@ func (c *fnCtx) expr(e ast.Expr, want *gty) (string, *gty) {
 					tag = strings.Trim(bl.Value, "\"`")
 				}
 			}
+			if strings.Contains(tag, "%w") {
+				u.noteAssume("an error value keeps only its format string: the error wrapped by %w is not tracked (callers only test err != nil)")
+			}
 			return "(some (GoErr.mk " + leanStr(tag) + "))", tyErr
 		}
-		if sig, ok := u.externs[fn]; ok {
+		if sig, ok := c.extern(v.Fun); ok {
 			var as []string
 			for _, a := range v.Args {
 				s, _ := c.expr(a, nil)
@@ -652,7 +711,29 @@ func (c *fnCtx) retTuple(vals []string) string {
 
 func (c *fnCtx) emitReturn(ind int, rs *ast.ReturnStmt, pos token.Pos) {
 	var vals []string
-	if rs != nil {
+	if rs != nil && len(rs.Results) == 1 && len(c.results) > 1 {
+		// return f(…) where f is a translated method with several results
+		call, ok := rs.Results[0].(*ast.CallExpr)
+		if !ok {
+			c.fail(pos, "return with 1 value for %d results", len(c.results))
+			return
+		}
+		projs, rts, ok := c.callCore(ind, call)
+		if !ok {
+			c.fail(pos, "unsupported call in return: %s", exprString(call))
+			return
+		}
+		if len(projs) != len(c.results) {
+			c.fail(pos, "return with %d values for %d results", len(projs), len(c.results))
+			return
+		}
+		for i := range projs {
+			if rts[i].String() != c.results[i].String() {
+				c.fail(pos, "result %d has type %s, want %s", i, rts[i], c.results[i])
+			}
+		}
+		vals = projs
+	} else if rs != nil {
 		if len(rs.Results) != len(c.results) {
 			c.fail(pos, "return with %d values for %d results", len(rs.Results), len(c.results))
 			return
@@ -672,7 +753,11 @@ func (c *fnCtx) emitReturn(ind int, rs *ast.ReturnStmt, pos token.Pos) {
 			vals[i] = fmt.Sprintf("__r%d", i)
 		}
 		rv := c.lookup(c.recv).lean
-		c.line(ind, rv+" := "+c.leanName+"__defer ext "+rv)
+		c.line(ind, rv+" := "+c.leanName+"__defer "+c.u.extArgs+" "+rv)
+	}
+	if c.mayPanic {
+		c.line(ind, "return MayPanic.ret "+c.retTuple(vals))
+		return
 	}
 	c.line(ind, "return "+c.retTuple(vals))
 }
@@ -692,6 +777,7 @@ func (c *fnCtx) commaOk(ind int, as *ast.AssignStmt) bool {
 	}
 	ks, _ := c.expr(ix.Index, tyString)
 	names := []string{}
+	fresh := map[int]bool{}
 	for i, l := range as.Lhs {
 		id, ok := l.(*ast.Ident)
 		if !ok {
@@ -702,8 +788,29 @@ func (c *fnCtx) commaOk(ind int, as *ast.AssignStmt) bool {
 		if i == 0 {
 			t = mt.elem
 		}
-		if as.Tok == token.DEFINE {
+		if i == 0 && isObject(mt.elem) && id.Name != "_" {
+			// x, ok := m[k] where the values of m are objects: x is a reference to the entry
+			if as.Tok != token.DEFINE || c.sc.vars[id.Name] != nil {
+				c.fail(as.Pos(), "a reference to a map entry must be a new variable")
+				return true
+			}
+			ref := c.makeRef(ix.X, ix.Index, as.Pos())
+			if ref == nil {
+				return true
+			}
+			ln := c.declare(id.Name, mt.elem)
+			c.sc.vars[id.Name].ref = ref
+			ref.name = ln
+			c.line(ind, fmt.Sprintf("-- %s := %s  [%s is a reference to this map entry: it is read when a method is called through it]", id.Name, exprString(ix), id.Name))
+			names = append(names, "_")
+			continue
+		}
+		if as.Tok == token.DEFINE && id.Name != "_" && c.sc.vars[id.Name] != nil && c.sc.vars[id.Name].ref == nil {
+			// Go: a variable already declared in the same scope is assigned by :=, not redeclared
+			names = append(names, c.sc.vars[id.Name].lean)
+		} else if as.Tok == token.DEFINE {
 			names = append(names, c.declare(id.Name, t))
+			fresh[i] = true
 		} else if id.Name == "_" {
 			names = append(names, "_")
 		} else if vi := c.lookup(id.Name); vi != nil {
@@ -713,17 +820,22 @@ func (c *fnCtx) commaOk(ind int, as *ast.AssignStmt) bool {
 			return true
 		}
 	}
-	val := "(" + ms + ".getD' " + ks + " " + c.u.zero(mt.elem) + ")"
+	val := ""
+	if !isObject(mt.elem) {
+		val = "(" + ms + ".getD' " + ks + " " + c.u.zero(mt.elem) + ")"
+	}
 	has := "(" + ms + ".has " + ks + ")"
-	kw := "let mut "
-	if as.Tok != token.DEFINE {
-		kw = ""
+	kw := func(i int) string {
+		if fresh[i] {
+			return "let mut "
+		}
+		return ""
 	}
 	if names[0] != "_" {
-		c.line(ind, kw+names[0]+" := "+val)
+		c.line(ind, kw(0)+names[0]+" := "+val)
 	}
 	if names[1] != "_" {
-		c.line(ind, kw+names[1]+" := "+has)
+		c.line(ind, kw(1)+names[1]+" := "+has)
 	}
 	return true
 }
@@ -782,6 +894,12 @@ func (c *fnCtx) stmt(ind int, s ast.Stmt) {
 		if c.commaOk(ind, v) {
 			return
 		}
+		if len(v.Rhs) == 1 {
+			if call, ok := v.Rhs[0].(*ast.CallExpr); ok && c.isTranslatedCall(call) {
+				c.callAssign(ind, call, v.Lhs, v.Tok, v.Pos())
+				return
+			}
+		}
 		if len(v.Rhs) == 1 && len(v.Lhs) > 1 { // tuple-valued external
 			rs, rt := c.expr(v.Rhs[0], nil)
 			if rt.kind != "tuple" || len(rt.tup) != len(v.Lhs) {
@@ -793,6 +911,10 @@ func (c *fnCtx) stmt(ind int, s ast.Stmt) {
 			for i, l := range v.Lhs {
 				id, ok := l.(*ast.Ident)
 				if !ok {
+					if _, isIx := l.(*ast.IndexExpr); isIx && v.Tok == token.ASSIGN {
+						names = append(names, "") // m[k], … = f(…): assigned through assignTo below
+						continue
+					}
 					c.fail(v.Pos(), "multi-value assignment into a non-identifier")
 					return
 				}
@@ -822,6 +944,13 @@ func (c *fnCtx) stmt(ind int, s ast.Stmt) {
 			}
 			for i := range v.Lhs {
 				if names[i] == "_" {
+					continue
+				}
+				if names[i] == "" {
+					if lt := c.typeOfLhs(v.Lhs[i]); lt == nil || lt.String() != rt.tup[i].String() {
+						c.fail(v.Pos(), "assignment of a %s to %s", rt.tup[i], exprString(v.Lhs[i]))
+					}
+					c.assignTo(ind, v.Lhs[i], proj(i, len(v.Lhs)), v.Pos())
 					continue
 				}
 				if fresh[i] {
@@ -873,11 +1002,12 @@ func (c *fnCtx) stmt(ind int, s ast.Stmt) {
 		c.fail(v.Pos(), "unsupported inc/dec")
 	case *ast.ExprStmt:
 		if call, ok := v.X.(*ast.CallExpr); ok {
-			if sig, ok := u.externs[exprString(call.Fun)]; ok && sig.noop {
+			if sig, ok := c.extern(call.Fun); ok && sig.noop {
 				c.line(ind, "pure () -- "+exprString(call)+" [no effect in the modelled mode]")
 				return
 			}
-			if c.methodCallStmt(ind, call, nil) {
+			if c.isTranslatedCall(call) {
+				c.callAssign(ind, call, nil, token.ASSIGN, v.Pos())
 				return
 			}
 		}
@@ -969,8 +1099,8 @@ func (c *fnCtx) stmt(ind int, s ast.Stmt) {
 		c.deferred = d
 		body := c.sb.String()
 		c.sb = outer
-		c.pre = append(c.pre, fmt.Sprintf("/-- the deferred func literal of %s -/\ndef %s__defer {V : Type} [Inhabited V] (ext : Ext V) (%s : %s) : %s := Id.run do\n    let mut %s := %s\n%s",
-			c.fd.Name.Name, c.leanName, rv, c.u.leanType(c.recvTy), c.u.leanType(c.recvTy), rv, rv, strings.TrimRight(body, "\n")))
+		c.pre = append(c.pre, fmt.Sprintf("/-- the deferred func literal of %s -/\ndef %s__defer {V : Type} [Inhabited V] %s (%s : %s) : %s := Id.run do\n    let mut %s := %s\n%s",
+			c.fd.Name.Name, c.leanName, c.u.extParams, rv, c.u.leanType(c.recvTy), c.u.leanType(c.recvTy), rv, rv, strings.TrimRight(body, "\n")))
 	case *ast.IfStmt:
 		c.push()
 		defer c.pop()
@@ -1025,6 +1155,18 @@ func (c *fnCtx) stmt(ind int, s ast.Stmt) {
 			}
 			k := name(v.Key, tyString)
 			val := name(v.Value, xt.elem)
+			if isObject(xt.elem) && val != "_" {
+				// the range value is a reference to the entry being visited
+				if k == "_" {
+					c.fail(v.Pos(), "range over a map of objects without its key")
+					return
+				}
+				if !c.rangeRefOK(v) {
+					return
+				}
+				c.sc.vars[exprString(v.Value)].ref = &refInfo{mapExpr: v.X, keyLean: k, name: val, hasValue: true}
+				u.noteAssume("a Go map has one entry per key: while ranging over " + exprString(v.X) + " the range value is the current entry (entries written back under other keys do not change it)")
+			}
 			c.line(ind, fmt.Sprintf("for (%s, %s) in %s do", k, val, xs))
 		case "slice":
 			if v.Key != nil && exprString(v.Key) != "_" {
@@ -1072,9 +1214,6 @@ func (c *fnCtx) elseStmt(ind int, e ast.Stmt, bare bool) {
 		c.stmt(ind, e)
 	}
 }
-
-// methodCallStmt: hook for calls of translated methods on fields (overridden by units that need it).
-func (c *fnCtx) methodCallStmt(ind int, call *ast.CallExpr, results []string) bool { return false }
 
 func (u *transUnit) noteAssume(s string) {
 	for _, a := range u.assume {
@@ -1143,14 +1282,22 @@ func (c *fnCtx) mutatesMapKeys(body *ast.BlockStmt, m ast.Expr, key ast.Expr) bo
 
 // transFunc translates one function / method; leanName is the name of the Lean definition.
 func (u *transUnit) transFunc(recv, name, leanName string) bool {
+	return u.transFuncMode(recv, name, leanName, false)
+}
+
+// transFuncMode: mayPanic = the function may dereference a nil interface value; its result type is then
+// MayPanic (…).  Found out by a first pass (fnCtx.panicky), after which the function is translated again.
+func (u *transUnit) transFuncMode(recv, name, leanName string, mayPanic bool) bool {
 	fd, file := u.pkg.Func(recv, name)
 	if fd == nil || fd.Body == nil {
 		u.errs = append(u.errs, fmt.Sprintf("function %s.%s not found", recv, name))
 		return false
 	}
-	c := &fnCtx{u: u, fd: fd, used: map[string]int{}, ok: true, leanName: leanName}
+	nErrs := len(u.errs)
+	c := &fnCtx{u: u, fd: fd, used: map[string]int{}, ok: true, leanName: leanName, mayPanic: mayPanic}
 	c.push()
 	var params []string
+	var paramTys []*gty
 	if fd.Recv != nil && len(fd.Recv.List) == 1 && len(fd.Recv.List[0].Names) == 1 {
 		c.recv = fd.Recv.List[0].Names[0].Name
 		c.recvTy = &gty{kind: "named", name: recv}
@@ -1166,6 +1313,16 @@ func (u *transUnit) transFunc(recv, name, leanName string) bool {
 	}
 	for _, f := range fd.Type.Params.List {
 		t := u.goType(f.Type)
+		if t.kind == "ignored" {
+			// an unmodelled parameter (context.Context): dropped; it may only be passed on to translated methods
+			u.noteAssume("parameters of type " + t.name + " are not modelled: they are dropped (the translated functions only pass them on)")
+			for _, nm := range f.Names {
+				if nm.Name != "_" {
+					c.declare(nm.Name, t)
+				}
+			}
+			continue
+		}
 		if t.kind == "unknown" {
 			// unnamed / unused parameters of unsupported types are dropped
 			used := false
@@ -1181,8 +1338,10 @@ func (u *transUnit) transFunc(recv, name, leanName string) bool {
 		}
 		if len(f.Names) == 0 {
 			params = append(params, fmt.Sprintf("(_ : %s)", u.leanType(t)))
+			paramTys = append(paramTys, t)
 		}
 		for _, nm := range f.Names {
+			paramTys = append(paramTys, t)
 			if nm.Name == "_" {
 				params = append(params, fmt.Sprintf("(_ : %s)", u.leanType(t)))
 				continue
@@ -1226,9 +1385,19 @@ func (u *transUnit) transFunc(recv, name, leanName string) bool {
 			c.emitReturn(2, nil, fd.End())
 		}
 	}
+	if c.panicky && !mayPanic {
+		u.errs = u.errs[:nErrs]
+		return u.transFuncMode(recv, name, leanName, true)
+	}
 	if !c.ok {
 		return false
 	}
+	if mayPanic {
+		rt = "MayPanic (" + rt + ")"
+		u.noteAssume("a method call through a nil interface value (a missing map entry) panics in Go: the translated function then returns the explicit outcome MayPanic.panic")
+	}
+	u.methods[recv+"."+name] = &methodInfo{leanName: leanName, hasRecv: c.recv != "", params: paramTys, results: c.results,
+		mayPanic: mayPanic, fuel: c.fuelUsed, extArgs: u.extArgs}
 	u.defs = append(u.defs, c.pre...)
 	var sb strings.Builder
 	fmt.Fprintf(&sb, "/-- Go: func ")
@@ -1240,7 +1409,7 @@ func (u *transUnit) transFunc(recv, name, leanName string) bool {
 	if c.fuelUsed {
 		fuel = " (fuel : Nat)"
 	}
-	fmt.Fprintf(&sb, "def %s {V : Type} [Inhabited V] (ext : Ext V)%s %s : %s := Id.run do\n", leanName, fuel, strings.Join(params, " "), rt)
+	fmt.Fprintf(&sb, "def %s {V : Type} [Inhabited V] %s%s %s : %s := Id.run do\n", leanName, u.extParams, fuel, strings.Join(params, " "), rt)
 	for _, m := range mutNames {
 		fmt.Fprintf(&sb, "    let mut %s := %s\n", m, m)
 	}
@@ -1272,7 +1441,13 @@ func (u *transUnit) render() string {
 		sb.WriteString("import " + i + "\n")
 	}
 	sb.WriteString("set_option linter.unusedVariables false\n")
-	sb.WriteString("namespace EinoV.Gen.Trans" + u.id + "\nopen EinoV.GoSem EinoV.Engine\n\n")
+	sb.WriteString("namespace EinoV.Gen.Trans" + u.id + "\nopen EinoV.GoSem EinoV.Engine" + func() string {
+		o := ""
+		for _, x := range u.opens {
+			o += " " + x
+		}
+		return o
+	}() + "\n\n")
 	for _, a := range u.assume {
 		sb.WriteString("-- assumption: " + a + "\n")
 	}
